@@ -395,6 +395,7 @@ func Check(p *core.Prog, r *core.Report, pr Pair) {
 			}
 		}
 		alphaRename(cb, fd, pr.From != "")
+		sortCommutative(cb)
 		t, err := tokens(cb)
 		if err != nil {
 			r.Und(pr.Rule, key, p.Pos(fd.Pos()), err.Error())
@@ -527,4 +528,85 @@ func alphaRename(body *ast.BlockStmt, fd *ast.FuncDecl, fragment bool) {
 		}
 		return true
 	})
+}
+
+// sortCommutative orders the operands of ==, != and of && / || chains by their
+// printed form, so that `a == b` and `b == a`, `A && B` and `B && A` are one
+// spelling. Operands that contain a call (other than len) keep their order:
+// evaluation order could matter there.
+func sortCommutative(n ast.Node) {
+	render := func(e ast.Expr) string {
+		var buf bytes.Buffer
+		printer.Fprint(&buf, token.NewFileSet(), e)
+		return buf.String()
+	}
+	pure := func(e ast.Expr) bool {
+		ok := true
+		ast.Inspect(e, func(m ast.Node) bool {
+			if c, isCall := m.(*ast.CallExpr); isCall {
+				if id, isID := c.Fun.(*ast.Ident); !isID || id.Name != "len" {
+					ok = false
+				}
+			}
+			return ok
+		})
+		return ok
+	}
+	var visit func(e ast.Expr) ast.Expr
+	visit = func(e ast.Expr) ast.Expr {
+		be, ok := e.(*ast.BinaryExpr)
+		if !ok {
+			return e
+		}
+		switch be.Op {
+		case token.EQL, token.NEQ:
+			if pure(be.X) && pure(be.Y) && render(be.Y) < render(be.X) {
+				be.X, be.Y = be.Y, be.X
+			}
+		case token.LAND, token.LOR:
+			var ops []ast.Expr
+			var flat func(x ast.Expr)
+			flat = func(x ast.Expr) {
+				if b, ok := x.(*ast.BinaryExpr); ok && b.Op == be.Op {
+					flat(b.X)
+					flat(b.Y)
+					return
+				}
+				ops = append(ops, x)
+			}
+			flat(be)
+			allPure := true
+			for _, o := range ops {
+				if !pure(o) {
+					allPure = false
+				}
+			}
+			if allPure {
+				sort.SliceStable(ops, func(i, j int) bool { return render(ops[i]) < render(ops[j]) })
+				cur := ops[0]
+				for _, o := range ops[1:] {
+					cur = &ast.BinaryExpr{X: cur, Op: be.Op, Y: o}
+				}
+				nb := cur.(*ast.BinaryExpr)
+				*be = *nb
+			}
+		}
+		return be
+	}
+	// bottom-up: children first
+	ast.Inspect(n, func(m ast.Node) bool { return true })
+	var post func(m ast.Node)
+	post = func(m ast.Node) {
+		ast.Inspect(m, func(k ast.Node) bool {
+			if k == nil || k == m {
+				return true
+			}
+			post(k)
+			return false
+		})
+		if e, ok := m.(ast.Expr); ok {
+			visit(e)
+		}
+	}
+	post(n)
 }
